@@ -97,6 +97,8 @@ func families(tier string) []family {
 		{kind: 'r', name: "a/f"}, {kind: 'd', name: "a/d"}, {kind: 'r', name: "a"},
 		// the same chain ending at a file: one that can be created outside, one that exists outside
 		{kind: 's', name: "a", target: "x/x/../../zz"}, {kind: 's', name: "a", target: "x/x/../../cwd/victim"},
+		// a hard link whose source path runs through such a link to an existing outside file, then a regular entry of that name
+		{kind: 'h', name: "h", target: "a/cwd/victim"}, {kind: 'r', name: "h"},
 	}
 	// link targets that stay inside when read relative to the link's own directory (as they are
 	// validated) but name an existing file outside the working directory when read relative to the
